@@ -149,6 +149,16 @@ CHECKS["C17"] = dict(
     note="General position by construction (abscissae never on a vertex; no shared vertices / collinear overlaps); tolerance 1e-9 of the extent.",
     design="7/C17",
 )
+CHECKS["C18"] = dict(
+    category="fault_enumeration",
+    technique="exhaustive fault injection over a catalogue of malformations x positions x structures x carrier families (generated-case search with a 'must raise, no result' oracle and an accepted-control group)",
+    text="Every catalogue entry of the property (13 model/fit fault kinds with variants, HDC limits/deltas malformations, non-finite evaluation points, 1-D/3-D models for the 2-D-only contours, "
+         "non-models for IFORM, unknown slicer keywords / references, too few intervals) is injected at every dimension of valid 1-4-dimensional descriptions (9 structures, 7 carrier families), "
+         "singly (exhaustive) and in pairs within a stage (thorough: exhaustive; quick: every 7th). The call where the malformed item is supplied (first use for lazily interpreted options) must raise "
+         "and produce no object; the unmodified description must be accepted.",
+    note="Only rejection is asserted; an exception type other than the documented ones is recorded as a note. Two catalogue entries are rejected by a later statement rather than by their own guard (longer HDC limits, 3-D model for direct sampling), which the property allows.",
+    design="7/C18",
+)
 NOT_YET = {}
 
 def main():
